@@ -1,16 +1,22 @@
+from __future__ import annotations
+
 import struct
 from pathlib import Path
 
 
-def calc_modular_checksum(file_path: Path) -> bytes:
-    """Calculates the modular checksum for a file in one go."""
+def calc_modular_checksum(file_path: Path, size_to_verify: int | None = None) -> bytes:
+    """Calculates the modular checksum for a file in one go. If a size to verify is specified,
+    only the first `size_to_verify` bytes of the file are covered by the checksum."""
     checksum = 0
+    remaining = size_to_verify
 
     with open(file_path, "rb") as file:
         while True:
-            data = file.read(4)
+            data = file.read(4 if remaining is None else min(4, remaining))
             if not data:
                 break
+            if remaining is not None:
+                remaining -= len(data)
             checksum += int.from_bytes(data.ljust(4, b"\0"), byteorder="big", signed=False)
 
     checksum %= 2**32
